@@ -2,7 +2,8 @@
 //! state unchanged).
 //!
 //!   tr <tok>...        build a state on node A through the real keyspace actor (tokens as in
-//!                      hx-actor: s: d: S: D: P:), then node B fetches it with the real
+//!                      hx-actor: s: d: S: D: P:; `F` = node B fetches the state at this point of
+//!                      the history too, a final fetch is always made), node B fetches it with the real
 //!                      `ReplicationClient::get_state` from the real `ReplicationService` over the
 //!                      in-process transport; the RECEIVED set is printed (and compared with the
 //!                      model of the state) and compared by the oracle with the sender's set.
@@ -65,70 +66,97 @@ fn addr(i: u16) -> SocketAddr {
     SocketAddr::from(([127, 0, 0, 1], 7100 + i))
 }
 
+/// Compares a received set with the sender's own set: everything the property lists.
+fn compare_sets(got: &Set2, sent: &Set2, probes: &[u64]) -> Option<String> {
+    let mut bad: Option<String> = None;
+    if set_contents(got) != set_contents(sent) {
+        bad = Some(format!("contents differ: received {:x?}, sender holds {:x?}", set_contents(got), set_contents(sent)));
+    }
+    if got.diff(sent) != (vec![], vec![]) || sent.diff(got) != (vec![], vec![]) {
+        bad.get_or_insert("diff between sender's and received state is not empty".into());
+    }
+    // accept/refuse decisions and results of further operations
+    let (e, d) = set_contents(sent);
+    let mut stamps: Vec<u64> = probes.to_vec();
+    stamps.extend(e.iter().map(|x| x.1).take(20));
+    stamps.extend(d.iter().map(|x| x.1).take(20));
+    let keys: Vec<u64> = e.iter().chain(d.iter()).map(|x| x.0).take(20).chain([PROBE_KEY, 0x4242]).collect();
+    for t in &stamps {
+        for dt in [0u64, 1 << 8, 1 << 32] {
+            let ts = HLCTimestamp::from_u64(t.wrapping_add(dt));
+            for k in &keys {
+                if got.will_apply(*k, ts) != sent.will_apply(*k, ts) {
+                    bad.get_or_insert(format!("will_apply({:x},{:x}) differs", k, ts.as_u64()));
+                }
+            }
+            for src in 0..2 {
+                let (mut a, mut b) = (got.clone(), sent.clone());
+                let k = keys[(t % keys.len() as u64) as usize];
+                if a.insert_with_source(src, k, ts) != b.insert_with_source(src, k, ts) || set_contents(&a) != set_contents(&b) {
+                    bad.get_or_insert(format!("insert({},{:x},{:x}) differs", src, k, ts.as_u64()));
+                }
+                let (mut a, mut b) = (got.clone(), sent.clone());
+                if a.delete_with_source(src, k, ts) != b.delete_with_source(src, k, ts) || set_contents(&a) != set_contents(&b) {
+                    bad.get_or_insert(format!("delete({},{:x},{:x}) differs", src, k, ts.as_u64()));
+                }
+            }
+        }
+    }
+    let (mut a, mut b) = (got.clone(), sent.clone());
+    if a.purge_old_deletes().len() != b.purge_old_deletes().len() || set_contents(&a) != set_contents(&b) {
+        bad.get_or_insert("purge differs".into());
+    }
+    bad
+}
+
 async fn run_tr(w: &mut CaseWriter, probes: &[u64], toks: &[String]) {
     let pv: Vec<String> = probes.iter().map(|t| format!("{:x}", t)).collect();
     let case = format!("tr probes={} {}", pv.join(","), toks.join(" "));
     let store = Arc::new(Faulty::default());
     let group = KeyspaceGroup::new(store.clone(), Clock::new(1)).await;
-    for t in toks {
-        apply_token(&group, t).await;
-    }
     datacake_rpc::verif::unregister_local_server(addr(0));
     let server = Server::verif_local(addr(0));
     server.add_service(ReplicationService::new(group.clone()));
     let mut client = ReplicationClient::<Faulty>::new(Clock::new(2), Channel::connect(addr(0)));
-    let sent = actor_set(&group, KS).await;
-    match client.get_state(KS).await {
-        Ok((_, got)) => {
-            w.case(&case, &format!("ok {}", show_set(&got, probes)));
-            w.stats.hit("transfer_ok");
-            // ---- oracle: observably identical to the sender's state ----
-            let mut bad: Option<String> = None;
-            if set_contents(&got) != set_contents(&sent) {
-                bad = Some("contents differ".into());
+    let mut outs: Vec<String> = Vec::new();
+    let mut fails: Vec<(String, String)> = Vec::new();
+    // the state is fetched at every `F` of the history and once more at its end: a peer asks
+    // repeatedly, and must each time get the state as it is at that moment
+    let mut all: Vec<&str> = toks.iter().map(|s| s.as_str()).collect();
+    all.push("F");
+    for (i, t) in all.iter().enumerate() {
+        if *t != "F" {
+            if t.starts_with("P:") {
+                let before = set_contents(&actor_set(&group, KS).await).1.len();
+                apply_token(&group, t).await;
+                let after = set_contents(&actor_set(&group, KS).await).1.len();
+                w.stats.hit(if after < before { "purge_removed_tombstones" } else { "purge_removed_nothing" });
+            } else {
+                apply_token(&group, t).await;
             }
-            if got.diff(&sent) != (vec![], vec![]) || sent.diff(&got) != (vec![], vec![]) {
-                bad.get_or_insert("diff between sender's and received state is not empty".into());
-            }
-            // accept/refuse decisions and results of further operations
-            let (e, d) = set_contents(&sent);
-            let mut stamps: Vec<u64> = probes.to_vec();
-            stamps.extend(e.iter().map(|x| x.1).take(20));
-            stamps.extend(d.iter().map(|x| x.1).take(20));
-            let keys: Vec<u64> = e.iter().chain(d.iter()).map(|x| x.0).take(20).chain([PROBE_KEY, 0x4242]).collect();
-            for t in &stamps {
-                for dt in [0u64, 1 << 8, 1 << 32] {
-                    let ts = HLCTimestamp::from_u64(t.wrapping_add(dt));
-                    for k in &keys {
-                        if got.will_apply(*k, ts) != sent.will_apply(*k, ts) {
-                            bad.get_or_insert(format!("will_apply({:x},{:x}) differs", k, ts.as_u64()));
-                        }
-                    }
-                    for src in 0..2 {
-                        let (mut a, mut b) = (got.clone(), sent.clone());
-                        let k = keys[(t % keys.len() as u64) as usize];
-                        if a.insert_with_source(src, k, ts) != b.insert_with_source(src, k, ts) || set_contents(&a) != set_contents(&b) {
-                            bad.get_or_insert(format!("insert({},{:x},{:x}) differs", src, k, ts.as_u64()));
-                        }
-                        let (mut a, mut b) = (got.clone(), sent.clone());
-                        if a.delete_with_source(src, k, ts) != b.delete_with_source(src, k, ts) || set_contents(&a) != set_contents(&b) {
-                            bad.get_or_insert(format!("delete({},{:x},{:x}) differs", src, k, ts.as_u64()));
-                        }
-                    }
+            continue;
+        }
+        let sent = actor_set(&group, KS).await;
+        match client.get_state(KS).await {
+            Ok((_, got)) => {
+                outs.push(format!("ok {}", show_set(&got, probes)));
+                w.stats.hit("transfer_ok");
+                if let Some(b) = compare_sets(&got, &sent, probes) {
+                    fails.push(("received-state-differs-from-sent".into(), format!("fetch after token {}: {}", i, b)));
                 }
-            }
-            let (mut a, mut b) = (got.clone(), sent.clone());
-            if a.purge_old_deletes().len() != b.purge_old_deletes().len() || set_contents(&a) != set_contents(&b) {
-                bad.get_or_insert("purge differs".into());
-            }
-            if let Some(b) = bad {
-                w.fail("received-state-differs-from-sent", &case, &b);
-            }
-        },
-        Err(e) => {
-            w.case(&case, &format!("err {:?}", e.code));
-            w.fail("valid-state-not-delivered", &case, &format!("{:?}", e));
-        },
+            },
+            Err(e) => {
+                outs.push(format!("err {:?}", e.code));
+                fails.push(("valid-state-not-delivered".into(), format!("fetch after token {}: {:?}", i, e)));
+            },
+        }
+    }
+    w.case(&case, &outs.join(" | "));
+    let mut seen = std::collections::BTreeSet::new();
+    for (class, detail) in fails {
+        if seen.insert(class.clone()) {
+            w.fail(&class, &case, &detail);
+        }
     }
     server.shutdown();
 }
@@ -261,14 +289,23 @@ fn main() {
         }
         for &n in &sizes {
             for shape in 0..4 {
-                let norig = *rng.pick(&[1u64, 2, 7, 200]);
+                // shape 3 (a state with purged prefixes): few origins, the first half of the history
+                // at old ticks with tombstones, the second half two forgiveness periods later with
+                // every origin heard through BOTH sources, so that the cut-offs move past the old
+                // tombstones and the purge really removes them
+                let norig = if shape == 3 { *rng.pick(&[1u64, 2]) } else { *rng.pick(&[1u64, 2, 7, 200]) };
                 let mut toks = Vec::new();
                 let mut probes = vec![mk(base, 0, 1), mk(base + 2 * W_TICKS, 0, 1)];
                 for i in 0..n as u64 {
                     let origin = 1 + (i % norig);
-                    let t = mk(base + i / 3 + if shape == 3 { (i % 2) * 2 * W_TICKS } else { 0 }, i % 3, origin % 256);
-                    let src = if shape == 2 { 0 } else { i % 2 };
-                    let dead = match shape { 0 => false, 1 => true, _ => i % 3 == 0 };
+                    let late = shape == 3 && i >= n as u64 / 2;
+                    let t = mk(base + i / 3 + if late { 2 * W_TICKS } else { 0 }, i % 3, origin % 256);
+                    let src = match shape {
+                        2 => 0,
+                        3 if late => (i / norig) % 2,
+                        _ => i % 2,
+                    };
+                    let dead = match shape { 0 => false, 1 => true, 3 => !late && i % 2 == 0, _ => i % 3 == 0 };
                     if dead {
                         toks.push(format!("d:{}:{:x}:{:x}:k", src, i * 7 + 1, t));
                     } else {
@@ -276,7 +313,15 @@ fn main() {
                     }
                     if i < 6 { probes.push(t); }
                 }
-                if shape == 3 { toks.push("P:k".into()); }
+                if n >= 2 {
+                    // an earlier fetch of the same peer in the middle of the history
+                    toks.insert(n / 2, "F".into());
+                }
+                if shape == 3 {
+                    // ... and right before the purge: the state after it must be the purged one
+                    toks.push("F".into());
+                    toks.push("P:k".into());
+                }
                 run_tr(&mut w, &probes, &toks).await;
             }
         }
